@@ -245,7 +245,7 @@ func init() {
 
 	core.Register(&core.Rule{
 		Name: "R-EPOCH",
-		Doc: "The visited epoch of a generation-stamped table (an integer field E compared with and stored into elements of a slice field V by a gate function): (a) every increment of E is followed, before any call, by a test of E against 0 whose taken branch clears V (wrap handling: the 2^k-th search must not see stale marks; necessary for C13); (b) no increment of E sits in a loop that also calls the gated recursion (a reset per start position turns the states x n visited bound into states x n^2; necessary for C05).",
+		Doc: "The visited epoch of a generation-stamped table (an integer field E compared with and stored into elements of a slice field V by a gate function): (a) every increment of E is followed, before any call, by a test of E against 0 whose taken branch clears V (wrap handling: the 2^k-th search must not see stale marks; necessary for C13), and the table is not extended by re-slicing itself after the increment (the clear must cover the final extent); (b) no increment of E sits in a loop that also calls the gated recursion (a reset per start position turns the states x n visited bound into states x n^2; necessary for C05).",
 		Min: 2, NeedSSA: true,
 		Run: func(p *core.Prog) *core.RuleResult {
 			res := &core.RuleResult{}
@@ -341,6 +341,32 @@ func init() {
 							oa.Detail = "increment of the visited epoch is not followed by a wrap test that clears the table: " + why
 						}
 						res.Obligations = append(res.Obligations, oa)
+						// (a') the wrap-clear covers the table's final extent: after the increment (and its clear) the table field is
+						// not extended by re-slicing itself (rows beyond the old length would keep marks of the previous cycle)
+						oc := core.Obligation{Key: kc.Key("R-EPOCH", core.FuncName(f), "increment "+fq+" wrap-clear covers the final table"), Pos: p.Pos(st.Pos()), Nontrivial: true, Status: core.Discharged, Detail: "the table is not re-sliced after the epoch is advanced"}
+						tf := epoch[ef]
+						for _, b2 := range f.Blocks {
+							for j, in2 := range b2.Instrs {
+								st2, ok := in2.(*ssa.Store)
+								if !ok {
+									continue
+								}
+								_, owner2, f2, elem2 := baseField(st2.Addr)
+								if f2 != tf || elem2 || owner2 != owner {
+									continue
+								}
+								sl, ok := st2.Val.(*ssa.Slice)
+								if !ok || !derivesFromLoadOf(sl.X, owner, tf, 0) {
+									continue
+								}
+								after := (b2 == b && j > i) || (b2 != b && blockReaches(b, b2))
+								if after {
+									oc.Status = core.Violated
+									oc.Detail = fmt.Sprintf("the table is re-sliced (%s) after the epoch was advanced and the wrap-clear ran: the clear covered only the previous extent, rows beyond it keep marks from 65536 searches ago and count as visited", p.Pos(st2.Pos()))
+								}
+							}
+						}
+						res.Obligations = append(res.Obligations, oc)
 						// (b) not in a loop with the gated recursion
 						ob := core.Obligation{Key: kc.Key("R-EPOCH", core.FuncName(f), "increment "+fq+" not-per-start-position"), Pos: p.Pos(st.Pos()), Nontrivial: true}
 						ob.Status = core.Discharged
@@ -459,4 +485,26 @@ func comparesElemWithField(fn *ssa.Function, tf, ef *types.Var) bool {
 		}
 	}
 	return false
+}
+
+
+// blockReaches: to is reachable from from through successor edges (from != to, or through a cycle).
+func blockReaches(from, to *ssa.BasicBlock) bool {
+	seen := map[*ssa.BasicBlock]bool{}
+	var dfs func(b *ssa.BasicBlock) bool
+	dfs = func(b *ssa.BasicBlock) bool {
+		for _, s := range b.Succs {
+			if s == to {
+				return true
+			}
+			if !seen[s] {
+				seen[s] = true
+				if dfs(s) {
+					return true
+				}
+			}
+		}
+		return false
+	}
+	return dfs(from)
 }
